@@ -251,6 +251,154 @@ fn feed_part(tier: Tier) -> Part<'static, FeedSys> {
     }
 }
 
+/// Scrolling next to a scrollback that is AT its limit: limits 10, 11 and 20 with the
+/// scrollback filled to every level around them first (a seed prefix of 8..25 lines), then the
+/// scrolling alphabet. What the terminal retains is C13's and C14's business; here the view
+/// is compared cell by cell and the retained rows must be the most recent ones, unchanged.
+static SYS_L10A: LockStep = LockStep { property: "C06", probes: false, seed: Some(&seed_lines_10) };
+static SYS_L10B: LockStep = LockStep { property: "C06", probes: false, seed: Some(&seed_lines_12) };
+static SYS_L20: LockStep = LockStep { property: "C06", probes: false, seed: Some(&seed_lines_23) };
+fn seed_n(n: usize) -> Vec<Cmd> {
+    let mut v = vec![Cup(Some(99), Some(1))];
+    for i in 0..n {
+        v.push(Text(format!("{}", i % 10)));
+        v.push(Nel);
+    }
+    v
+}
+fn seed_lines_10(_c: &Cfg) -> Vec<Cmd> {
+    seed_n(11)
+}
+fn seed_lines_12(_c: &Cfg) -> Vec<Cmd> {
+    seed_n(13)
+}
+fn seed_lines_23(_c: &Cfg) -> Vec<Cmd> {
+    seed_n(22)
+}
+fn limited_part(name: &'static str, sys: &'static LockStep, limit: usize, tier: Tier) -> Part<'static, LockStep> {
+    Part {
+        name,
+        sys,
+        cfgs: cfgs(&[(2, 3)], &[Some(limit)]),
+        alphabet: &alpha_core,
+        depth: tier.pick(5, 7),
+        seconds: tier.pick(15.0, 900.0),
+        validated: true,
+        nontrivial: Some("lockstep_transitions"),
+    }
+}
+
+/// Screens of more than 65536 rows: SU / SD / IL / DL with counts around 64, 65536 and the
+/// distance to the end, from the top rows - marker rows must be where the shift puts them.
+fn tall_screen_scrolls(ctx: &Ctx, rep: &mut Report) {
+    use rayon::prelude::*;
+    let heights: Vec<usize> = ctx.tier.pick(vec![65_600, 131_100], vec![65_536, 65_537, 65_600, 70_000, 131_100, 200_000]);
+    let counts = [1usize, 5, 63, 64, 65, 100, 1000, 65_535];
+    let curs = [0usize, 1, 64, 65, 100];
+    let mut cases: Vec<(usize, usize, usize, usize)> = vec![];
+    for &h in &heights {
+        for f in 0..4 {
+            for &n in &counts {
+                for &cr in &curs {
+                    cases.push((h, f, n, cr));
+                }
+            }
+        }
+    }
+    let bad: Vec<String> = cases
+        .par_iter()
+        .filter_map(|&(h, f, n, cr)| {
+            let r = crate::engine::guarded(|| {
+                let mut vt = build_vt(2, h, Some(0));
+                // marker rows: a distinct two-character label on rows around every interesting index
+                let mut marks: Vec<usize> = vec![];
+                for base in [0usize, 64, 100, 1000, 65_535, h - 1] {
+                    for d in 0..3 {
+                        let r = base + d;
+                        if r < h && base + d >= base && !marks.contains(&r) {
+                            marks.push(r);
+                        }
+                        if base >= d + 1 && base - d - 1 < h && !marks.contains(&(base - d - 1)) {
+                            marks.push(base - d - 1);
+                        }
+                    }
+                }
+                let label = |r: usize| -> String { format!("{}{}", char::from_u32('A' as u32 + (r % 26) as u32).unwrap(), char::from_u32('a' as u32 + ((r / 26) % 26) as u32).unwrap()) };
+                let goto = |r: usize| -> String {
+                    let r1 = r.min(65_000);
+                    let mut s = format!("\x1b[{};1H", r1 + 1);
+                    let mut d = r - r1;
+                    while d > 0 {
+                        let k = d.min(60_000);
+                        s.push_str(&format!("\x1b[{}B", k));
+                        d -= k;
+                    }
+                    s
+                };
+                let mut setup = String::new();
+                for &m in &marks {
+                    setup.push_str(&goto(m));
+                    setup.push_str(&label(m));
+                }
+                setup.push_str(&goto(cr));
+                let _ = vt.feed_str(&setup);
+                let fin = ['S', 'T', 'L', 'M'][f];
+                let _ = vt.feed_str(&format!("\x1b[{}{}", n, fin));
+                // where each row of the result comes from (None = vacated blank)
+                let src = |r: usize| -> Option<usize> {
+                    match fin {
+                        'S' => if r + n < h { Some(r + n) } else { None },
+                        'T' => if r >= n { Some(r - n) } else { None },
+                        'L' => if r < cr { Some(r) } else if r >= cr + n { Some(r - n) } else { None },
+                        _ => if r < cr { Some(r) } else if r + n < h { Some(r + n) } else { None },
+                    }
+                };
+                let view = vt.view();
+                let mut probe: Vec<usize> = marks.clone();
+                for &m in &marks {
+                    for d in [n, 0] {
+                        if m + d < h {
+                            probe.push(m + d);
+                        }
+                        if m >= d {
+                            probe.push(m - d);
+                        }
+                    }
+                }
+                probe.sort();
+                probe.dedup();
+                for r in probe {
+                    let want = match src(r) {
+                        Some(s) if marks.contains(&s) => label(s),
+                        _ => "  ".to_string(),
+                    };
+                    let got: String = view[r].cells().iter().map(|c| c.char()).collect();
+                    if got != want {
+                        return Some(format!("row {} shows {:?}, expected {:?}", r, got, want));
+                    }
+                }
+                None
+            });
+            let name = ["SU", "SD", "IL", "DL"][f];
+            match r {
+                Ok(None) => None,
+                Ok(Some(d)) => Some(format!("2x{}: {} {} with the cursor on row {}: {}", h, name, n, cr, d)),
+                Err(p) => Some(format!("2x{}: {} {} from row {}: panic: {}", h, name, n, cr, p)),
+            }
+        })
+        .collect();
+    let n = cases.len() as u64;
+    rep.evaluations += n;
+    rep.traces_validated += n;
+    rep.transitions += n;
+    rep.parts.push(serde_json::json!({"part":"screens-taller-than-65536-rows","heights":heights,"cases":n,"violating":bad.len()}));
+    println!("part screens-taller-than-65536-rows: {} (height, function, count, cursor row) cases, {} violating", n, bad.len());
+    if let Some(d) = bad.first() {
+        emit_violation(ctx, rep, "C06", serde_json::json!({"part":"screens-taller-than-65536-rows","oracle":"reference-terminal","observed":d}));
+        rep.violations += bad.len() as u64 - 1;
+    }
+}
+
 pub fn run(ctx: &Ctx) -> Report {
     let mut rep = Report::new();
     let p = parts!(ctx.tier, &SYS);
@@ -258,6 +406,10 @@ pub fn run(ctx: &Ctx) -> Report {
     run_part(ctx, &mut rep, &medium_part(ctx.tier));
     run_part(ctx, &mut rep, &core_part(ctx.tier));
     run_part(ctx, &mut rep, &feed_part(ctx.tier));
+    run_part(ctx, &mut rep, &limited_part("scroll-core-at-the-limit-10a", &SYS_L10A, 10, ctx.tier));
+    run_part(ctx, &mut rep, &limited_part("scroll-core-at-the-limit-10b", &SYS_L10B, 10, ctx.tier));
+    run_part(ctx, &mut rep, &limited_part("scroll-core-at-the-limit-20", &SYS_L20, 20, ctx.tier));
+    tall_screen_scrolls(ctx, &mut rep);
     run_part(ctx, &mut rep, &super::sweep::sweep_part("scroll-large-screen-parameter-sweep", &SYS_SWEEP, &alpha_sweep, ctx.tier));
     // (a tall narrow screen as well: regions of more than 24 rows with rows above and below)
     let mut wcfgs = super::sweep::wide_cfgs(ctx.tier);
@@ -270,6 +422,21 @@ pub fn run(ctx: &Ctx) -> Report {
 
 pub fn replay(ctx: &Ctx, v: &Value) -> bool {
     let tier = if v["tier"] == "thorough" { Tier::Thorough } else { Tier::Quick };
+    if v["part"] == "scroll-core-at-the-limit-10a" {
+        return replay_part(ctx, &limited_part("scroll-core-at-the-limit-10a", &SYS_L10A, 10, tier), v);
+    }
+    if v["part"] == "scroll-core-at-the-limit-10b" {
+        return replay_part(ctx, &limited_part("scroll-core-at-the-limit-10b", &SYS_L10B, 10, tier), v);
+    }
+    if v["part"] == "scroll-core-at-the-limit-20" {
+        return replay_part(ctx, &limited_part("scroll-core-at-the-limit-20", &SYS_L20, 20, tier), v);
+    }
+    if v["part"] == "screens-taller-than-65536-rows" {
+        let mut rep = Report::new();
+        let c2 = Ctx { id: ctx.id.clone(), tier, seed: 0, start: ctx.start, known: ctx.known.clone(), replay_dir: ctx.replay_dir.clone() };
+        tall_screen_scrolls(&c2, &mut rep);
+        return rep.violations > 0;
+    }
     if v["part"] == "alternate-screen-through-feed" {
         return replay_part(ctx, &feed_part(tier), v);
     }
